@@ -103,6 +103,7 @@ pub fn ltx(t: &mut Toks) -> String {
             w.replace_actor(agent.actor_id(), snapshot);
         }
         let mut outs = vec![];
+        let mut pool_chunks: Vec<(u64, u64, usize, u64, u64)> = vec![];
         for stmts in reqs {
             let (before, _) = digest(&agent).await;
             let (status, body) = api_v1_transactions(
@@ -131,14 +132,33 @@ pub fn ltx(t: &mut Toks) -> String {
                         .collect()
                 }
             };
-            // broadcast messages (sent from spawned tasks: order is not deterministic)
-            let mut chunks: Vec<(u64, u64, usize, u64, u64)> = vec![];
-            while let Ok(m) = rx_bcast.try_recv() {
-                if let BroadcastInput::AddBroadcast(BroadcastV1::Change(c)) | BroadcastInput::Rebroadcast(BroadcastV1::Change(c)) = m {
-                    if let Changeset::Full { version, changes, seqs, last_seq, .. } = &c.changeset {
-                        chunks.push((seqs.start().0, seqs.end().0, changes.len(), version.0, last_seq.0));
+            // broadcast messages are sent from spawned tasks: they may arrive late and out of order.
+            // Collect them in a pool and report, for this request, the ones of ITS version (waiting
+            // until the chunk that ends at last_seq is there).
+            let deadline = std::time::Instant::now() + Duration::from_secs(10);
+            loop {
+                while let Ok(m) = rx_bcast.try_recv() {
+                    if let BroadcastInput::AddBroadcast(BroadcastV1::Change(c)) | BroadcastInput::Rebroadcast(BroadcastV1::Change(c)) = m {
+                        if let Changeset::Full { version, changes, seqs, last_seq, .. } = &c.changeset {
+                            pool_chunks.push((seqs.start().0, seqs.end().0, changes.len(), version.0, last_seq.0));
+                        }
                     }
                 }
+                let complete = match ver {
+                    None => true,
+                    Some(v) => pool_chunks.iter().any(|c| c.3 == v && c.1 == c.4),
+                };
+                if complete || std::time::Instant::now() > deadline {
+                    break;
+                }
+                tokio::time::sleep(Duration::from_millis(5)).await;
+            }
+            let mut chunks: Vec<(u64, u64, usize, u64, u64)> = match ver {
+                None => vec![],
+                Some(v) => pool_chunks.iter().filter(|c| c.3 == v).cloned().collect(),
+            };
+            if let Some(v) = ver {
+                pool_chunks.retain(|c| c.3 != v);
             }
             chunks.sort();
             let own_need_empty = {
